@@ -343,15 +343,25 @@ def fn_params(repo, it):
 
 
 def panic_promises(doc):
-    """sentences of a rustdoc text that promise a glam_assert panic (a sentence saying the function does not / never panics is not a promise)"""
+    """the part of a rustdoc text that promises a glam_assert panic: [] when the text never says so.  A mention of "panic" counts unless it is
+    itself negated ("will never panic", "does not panic"); the glam_assert condition may stand in the same or in a neighbouring sentence.  Returned
+    are the sentences that speak about the panic or the feature (parenthesised remarks removed), for the operand / boundary clauses"""
     if not doc:
         return []
-    out = []
-    for sent in re.split(r'(?<=[.!?])\s+', doc):
-        low = sent.lower()
-        if 'panic' not in low or not re.search(r'glam[_-]assert', low):
+    low = doc.lower()
+    if not re.search(r'glam[_-]assert', low):
+        return []
+    live = False
+    for m in re.finditer(r'panic', low):
+        before = low[max(0, m.start() - 40):m.start()]
+        if re.search(r"(\bnever|\bnot|\bcannot|n't)\s+(ever\s+)?$", before):
             continue
-        if re.search(r"\b(never|not|won't|cannot|can't|doesn't|does not)\b[^.]*\bpanic", low):
-            continue
-        out.append(sent)
-    return out
+        live = True
+    if not live:
+        return []
+    text = re.sub(r'\([^()]*\)', ' ', doc)
+    # sentence ends: a full stop followed by whitespace and a capital letter (so "e.g. `x`" does not end a sentence)
+    text = re.sub(r'(^|\s)#+\s*[A-Z]\w*(\s|$)', '. ', text)          # markdown headings ("# Panics") separate sentences
+    sents = re.split(r'(?<=[.!?])\s+(?=[A-Z])', text)
+    keep = [s_ for s_ in sents if re.search(r'panic|glam[_-]assert', s_.lower())]
+    return keep
